@@ -3,7 +3,8 @@
 
    Encodings:  OP_CODE_NOT_SET (-1) = 16;  COMPRESSED_NOT_SET (-1) = 2, FALSE = 0, TRUE = 1;
    `_frame_mask` None = (0,0,0,0);  `_payload_fragments` = (concatenation, number of entries);
-   `_frame_payload_len` is the derived quantity lenN s_frags (checked by the harness after every feed).
+   `_frame_payload_len` is the derived quantity lenN s_frags (checked by the harness after every feed);
+   `had_fragments` is Generated.had_fragments on (s_nfrags, lenN s_frags).
    The decompressor (ZLibDecompressor.decompress_sync incl. its carried state) is a Section variable. *)
 From AV Require Import Lib.Base Lib.Utf8Valid Generated.WsGen.
 Open Scope N_scope.
@@ -213,7 +214,10 @@ Definition ph_payload (c : cfg) (s : rstate) (d : bytes) : pres :=
   else
     let k := N.to_nat (s_toread s) in
     let raw := s_frags s ++ takeN k d in
-    let nfr := if lenN (s_frags s) =? 0 then s_nfrags s else 0 in
+    (* `if had_fragments:` append, join, clear -> 0 entries; else the list was empty and stays so.  When the list
+       is empty its concatenation s_frags is [] (representation: s_frags/s_nfrags describe one list), so
+       s_frags ++ slice is the payload in both branches. *)
+    let nfr := if had_fragments (s_nfrags s) (lenN (s_frags s)) then 0 else s_nfrags s in
     match handle_frame c (s_m s) (s_ffin s) (s_fop s) (unmask s raw) (s_comp s) with
     | HErr e => PFail e
     | HOk ev m' =>
